@@ -24,11 +24,17 @@ func names() []string {
 	return out
 }
 
+var fcache = map[string]plugintypes.Transformation{}
+
 func mustGet(name string) plugintypes.Transformation {
+	if f, ok := fcache[name]; ok {
+		return f
+	}
 	f, err := transformations.GetTransformation(name)
 	if err != nil {
 		panic("c14: " + err.Error())
 	}
+	fcache[name] = f
 	return f
 }
 
